@@ -7,22 +7,15 @@ queue), judged by `Spec/NodeCleanup.lean`.  All statements quantify over every c
 start time, every constant wall-clock offset and every history of
 `adv / store / ingest / announce / reannounce / lookup / probe / tick / drain / audit`
 (any length, any ids, TTLs of any sign, any manifest expiry, any tie-break hint of the provider
-truncation); helper lemmas live in `Lemmas/C05{Basic,Inv,Once}.lean`.
+truncation); helper lemmas live in `Lemmas/C05{Basic,Inv,Once,Run}.lean` (`reach cfg t0 ops` = the node after
+the history `ops` from construction at `t0`; `Still op` = the clock does not move during `op`).
 -/
-import EphVerif.Lemmas.C05Once
+import EphVerif.Lemmas.C05Run
 
 namespace EphVerif.C05
 open EphVerif.NodeCleanup EphVerif.C05L
 open EphVerif.ChunkStore (aget)
 open EphVerif.C05Spec (judgeDump judgeAudit N Ev count)
-
-/-- the node after a history, starting from construction at `t0` -/
-def reach (cfg : Cfg) (t0 : Int) (ops : List Op) : Run := run cfg (Run.init cfg t0) ops
-
-/-- the clock does not move during `op` -/
-def Still : Op → Prop
-  | .adv d => d = 0
-  | _ => True
 
 /-! ### (T) what the proofs rely on in the source, regenerated on every run -/
 
@@ -48,14 +41,6 @@ theorem tick_cleans_iff (cfg : Cfg) (s : State) :
     gate cfg s = true ↔ s.now - s.lastCleanup ≥ cfg.node.cleanupInterval * 1000000000 :=
   gate_iff cfg s
 
-theorem tick_clock (cfg : Cfg) (s : State) :
-    (tick cfg s).now = s.now ∧
-    (tick cfg s).lastCleanup = if gate cfg s then s.now else s.lastCleanup := by
-  unfold tick
-  split
-  · rw [cleanup_eq]; exact ⟨rfl, rfl⟩
-  · exact ⟨rfl, rfl⟩
-
 /-! ### C05.clean -/
 
 /-- **After any history, nothing the node holds had expired by the time of the most recent cleanup.**
@@ -69,40 +54,6 @@ theorem clean (cfg : Cfg) (t0 : Int) (ops : List Op) (hw : OpsWf cfg ops) (ks : 
     judgeDump cfg.self (reach cfg t0 ops).s.lastCleanup ((reach cfg t0 ops).s.lastCleanup + cfg.wallOff)
       (dumpOf ks nameOf (reach cfg t0 ops).s) = none :=
   judgeDump_of_inv (inv_run (inv_init cfg t0) ops hw) ks nameOf
-
-theorem still_step (cfg : Cfg) (s : State) (op : Op) (hs : Still op) (h : s.lastCleanup = s.now) :
-    (step cfg s op).now = s.now ∧ (step cfg s op).lastCleanup = s.now := by
-  cases op with
-  | adv d => simp only [Still] at hs; subst hs; exact ⟨by simp [step], h⟩
-  | store c ttl hint => exact ⟨rfl, h⟩
-  | ingest c e => obtain ⟨a, b, _, _⟩ := ingest_frame cfg s c e; exact ⟨a, b.trans h⟩
-  | announce c e p pid addr ttl hint =>
-    obtain ⟨a, b, _, _⟩ := announce_frame cfg s c e p pid addr ttl hint; exact ⟨a, b.trans h⟩
-  | reannounce c ttl hint => obtain ⟨a, b, _, _⟩ := reannounce_frame cfg s c ttl hint; exact ⟨a, b.trans h⟩
-  | lookup c => obtain ⟨a, b, _, _⟩ := lookup_frame cfg s c; exact ⟨a, b.trans h⟩
-  | probe c => exact ⟨rfl, h⟩
-  | tick =>
-    obtain ⟨a, b⟩ := tick_clock cfg s
-    refine ⟨a, ?_⟩
-    show (tick cfg s).lastCleanup = s.now
-    rw [b]; split
-    · rfl
-    · exact h
-  | drain => exact ⟨rfl, h⟩
-  | audit => exact ⟨rfl, h⟩
-
-theorem still_run (cfg : Cfg) (r : Run) (ops : List Op) (hs : ∀ op ∈ ops, Still op) (h : r.s.lastCleanup = r.s.now) :
-    (run cfg r ops).s.now = r.s.now ∧ (run cfg r ops).s.lastCleanup = r.s.now := by
-  induction ops generalizing r with
-  | nil => exact ⟨rfl, h⟩
-  | cons op ops ih =>
-    obtain ⟨a, b⟩ := still_step cfg r.s op (hs op (List.mem_cons_self ..)) h
-    have := ih (r := exec cfg r op) (fun o ho => hs o (List.mem_cons_of_mem _ ho)) (by show (step cfg r.s op).lastCleanup = (step cfg r.s op).now; rw [a, b])
-    simp only [run, List.foldl_cons]
-    refine ⟨this.1.trans a, this.2.trans a⟩
-
-theorem reach_append (cfg : Cfg) (t0 : Int) (a b : List Op) : reach cfg t0 (a ++ b) = run cfg (reach cfg t0 a) b := by
-  simp [reach, run, List.foldl_append]
 
 /-- **The literal statement.**  Take any history `pre`, let a tick run the cleanup at time `T`, and let
     anything at all happen afterwards at the same instant (`post`: more stores, manifests, announcements,
